@@ -125,8 +125,9 @@ func VxH_C09_wellformed() {
 	dispK := []string{"block", "inline", "table-cell", "none"}
 	nP, nS, nK := 2, 6, 2
 	if vx.Tier() > 0 {
-		nP, nS, nK = 3, len(dispS), 4
-		dispI, dispJ = vxDisplays, vxDisplays
+		// (every display value for x-i; all 19 x 19 combinations with x-j would be ~120000 documents)
+		nS, nK = len(dispS), 4
+		dispI = vxDisplays
 	}
 	nI := len(dispI)
 	dp := vx.Choose("display-p", nP)
